@@ -28,9 +28,17 @@ _MECARD_ESCAPE = {
 }
 
 
+# A vCard value must not span more than one content line
+_VCARD_LINEBREAKS = {
+    ord('\n'): '\\n',
+    ord('\r'): None,
+}
+
+
 _VCARD_ESCAPE = {
     ord(','): '\\,',
     ord(';'): '\\;',
+    **_VCARD_LINEBREAKS,
 }
 
 
@@ -301,7 +309,7 @@ def make_vcard_data(name, displayname, email=None, phone=None, fax=None,
 
     escape = _escape_vcard
     data = ['BEGIN:VCARD', 'VERSION:3.0',
-            f'N:{name}',
+            f'N:{str(name).translate(_VCARD_LINEBREAKS)}',
             f'FN:{escape(displayname)}']
     if org:
         data.append(f'ORG:{escape(org)}')
